@@ -160,12 +160,20 @@ func OddStartTagSpansLines(n Node, odd int) bool {
 	return false
 }
 
-// CallArgs is the argument list of a component call: show takes a string.
+// CallArgs is the argument list of a component call: show and the script template greet take a string.
 func CallArgs(comp string) string {
-	if comp == "show" {
+	if comp == "show" || comp == "greetc" {
 		return "env.E(1)"
 	}
 	return ""
+}
+
+// CallName is the Go name a component id stands for (greetc: the script template greet rendered as a component).
+func CallName(comp string) string {
+	if comp == "greetc" {
+		return "greet"
+	}
+	return comp
 }
 
 // URLExpr is the Go expression of a sanitised URL attribute value: <a href> takes a templ.SafeURL, every other
@@ -223,7 +231,9 @@ const (
 	OddCommentBeforeTempl             // file level: a Go block ending in an INDENTED // comment directly in front of `templ`
 	OddHeaderSpansLines               // if / else if / for header whose Go expression spans lines (continuation lines indented)
 	OddAttrExprSpansLines             // attribute expressions of elements with odd-length names span lines and hold a raw string with a line break
-	OddAll                = OddGoCodeTwo | OddCondOneLine | OddExprComment | OddCallBlockOneLine | OddCommentBeforeTempl | OddHeaderSpansLines | OddAttrExprSpansLines
+	OddCallArgSpacing                 // component call arguments written with padding: @show( env.E(1) )
+	OddCRLF                           // the whole file has Windows line endings (applied by the harness to every second program)
+	OddAll                = OddCallArgSpacing | OddCRLF | OddGoCodeTwo | OddCondOneLine | OddExprComment | OddCallBlockOneLine | OddCommentBeforeTempl | OddHeaderSpansLines | OddAttrExprSpansLines
 )
 
 type printer struct {
@@ -538,10 +548,15 @@ func (p *printer) node(n Node, depth int) {
 				atOK = true
 			}
 		}
-		if p.v == 2 || !atOK {
-			p.sb.WriteString("{! " + n.Comp + "(" + CallArgs(n.Comp) + ") }")
+		args := CallArgs(n.Comp)
+		if args != "" && p.v == 3 && p.odd&OddCallArgSpacing != 0 {
+			args = " " + args + " "
+		}
+		// (the legacy spelling is also used for every second call with arguments in the odd spelling)
+		if p.v == 2 || !atOK || (args != CallArgs(n.Comp) && n.After == "v" && p.sb.Len()%2 == 0) {
+			p.sb.WriteString("{! " + CallName(n.Comp) + "(" + args + ") }")
 		} else {
-			p.sb.WriteString("@" + n.Comp + "(" + CallArgs(n.Comp) + ")")
+			p.sb.WriteString("@" + CallName(n.Comp) + "(" + args + ")")
 		}
 		p.ws(n.After, depth)
 	case "callb":
